@@ -195,7 +195,14 @@ def run_case(args):
     q = wrap(mds, positions)
     if backend != "atlas":
         q = q.replace(".Jets('A')", ".Muons('A')")
-    if hist:
+    if hist and hist[0][0] == "again":
+        # the SAME query object (one parsed ast) is translated two / three times, each time by a fresh executor - value() called
+        # twice on one stream, or one query rendered for two backends: every translation lands the blocks, the last is judged
+        from mc.core.translate import parse_query, translate_ast
+        a = parse_query(q)
+        for _ in range(hist[0][1]):
+            pkg = translate_ast(a, backend, query_text=q)
+    elif hist:
         # earlier queries on the SAME executor object: 'apply' = transformed but never written (a dry run / abandoned
         # translation), 'full' = translated completely, 'fail' = a translation that raised.  The package of the query
         # under test must hold its own blocks only, each exactly once.
@@ -240,7 +247,7 @@ def run_case(args):
     injected = "".join(l for _, fs in exp[1] for ls in fs.values() for l in ls)
     # nothing of an earlier query's blocks may appear in this package
     mine = {l for _, fs in exp[1] for ls in fs.values() for l in ls}
-    for _mode, pmds, _pp in hist:
+    for _mode, pmds, _pp in (h for h in hist if h[0] != "again"):
         for pm in pmds:
             for k, ls in pm.items():
                 if k in FIELDS:
@@ -303,6 +310,16 @@ def build_cases(tier):
                 h = [(mode.split("-")[0], pm, (0,) * len(pm))] * (2 if mode == "apply-twice" else 1)
                 cases.append((cid, cur, (0,) * len(cur), "atlas", tuple(h)))
                 cid += 1
+    # the same query object translated again (fresh executor each time)
+    for i, f in enumerate(FIELDS):
+        for times in (2, 3):
+            cases.append((cid, [block_md("ag", {f: [mk_line(f"G{i}a_"), mk_line(f"G{i}b_")]})], (0,), "atlas", (("again", times),)))
+            cid += 1
+    cases.append((cid, [block_md("ag", {f: [mk_line(f"GA{i}_")] for i, f in enumerate(FIELDS)})], (0,), "atlas", (("again", 2),)))
+    cid += 1
+    for backend in ("cms_aod", "cms_miniaod"):
+        cases.append((cid, [block_md("ag", {"body_includes": [mk_line("GC_a"), mk_line("GC_b")]})], (0,), backend, (("again", 2),)))
+        cid += 1
     # CMS: body includes
     for backend in ("cms_aod", "cms_miniaod"):
         for j, sp in enumerate(["", "<vector>", "{{ x }}"]):
